@@ -13,6 +13,22 @@ every record against the drawing alone.  Drawings with arcs (lattice circle of r
 three-point arcs) have irrational measures: there every presentation must agree with the
 canonical presentation of the same drawing (length at 1e-9, area within the discretisation
 granularity 1e-3), with polygon counts and nesting judged exactly.
+
+Families added by the coverage audit (all judged by TLC, Regions.tla):
+  * other ways to build the same drawing (line segments / MultiLineString / shapely polygons through
+    load_path, concatenation of per-piece paths, explode(), copy(), 3D and back), fully exploded
+    presentations, deeper nesting (depth 4, sibling holes with islands, nested second body);
+  * histories with two transforms and a single derived value read before / between them, the
+    convenience entry points (apply_scale, apply_translation, rezero), a similarity that is not
+    axis aligned (3-4-5 rotation, also as a pure rotation by a rational angle), transform then export
+    and export then transform, svg round trips compared exactly, drawings 10^3 times larger;
+  * drawings whose boundaries mix straight and circular parts (stadium, half disc, rounded square with
+    a hole, closed-circle entities, annulus, circle as shell, several bodies): lattice skeletons give
+    the nesting, polygonal curves must come back exactly, measures must stand in a fixed-point
+    relation to the canonical presentation (records of kind "arc", ArcClause) through splittings,
+    directions, orders, private vertices, similarity maps (cold / warm), dxf / svg / dict round trips,
+    magnitudes 2^-20 .. 2^40, and the same boundary given by Line entities through the
+    discretisation of its arcs.
 """
 import itertools
 import io
@@ -43,8 +59,19 @@ CURVES = {
     "tri345_big": [[14, 6], [20, 6], [14, 14]],
     "split_side": [[0, 20], [4, 20], [8, 20], [8, 24], [0, 24]],          # a side with a collinear vertex
 }
+CURVES.update({
+    # audit: deeper nesting, sibling holes with their own islands, a nested second body
+    "n1": rect(2, 2, 10, 10), "n2": rect(3, 3, 9, 9), "n3": rect(4, 4, 8, 8), "n4": rect(5, 5, 7, 7),
+    "h1": rect(1, 1, 5, 5), "h2": rect(6, 1, 11, 7), "i1": rect(2, 2, 4, 4), "i2": [[7, 2], [10, 2], [7, 6]],
+    "b2": rect(14, 0, 24, 10), "b2h": rect(15, 1, 23, 9), "b2i": rect(16, 2, 22, 8), "b2j": rect(17, 3, 21, 7),
+    # inside the bounding box of a non-convex / slanted curve but outside the curve itself
+    "notch": rect(23, 3, 25, 5), "corner": rect(18, 11, 19, 13),
+})
 DRAWINGS = [["outer"], ["outer", "hole"], ["outer", "hole", "island"], ["outer", "apart"], ["outer", "hole", "hole2"],
             ["ell"], ["tri345", "apart"], ["outer", "hole", "island", "apart"], ["split_side"], ["tri345_big", "outer"]]
+DRAWINGS_DEEP = [["outer", "n1", "n2", "n3", "n4"], ["outer", "h1", "h2", "i1", "i2"],
+                 ["outer", "hole", "b2", "b2h", "b2i", "b2j"], ["outer", "h1", "i1", "h2", "b2", "b2h"],
+                 ["ell", "notch"], ["tri345_big", "corner", "outer"]]
 
 MAPS = {
     "none": {"l": [[1, 0], [0, 1]], "t": [0, 0]},
@@ -54,6 +81,18 @@ MAPS = {
     "mirror": {"l": [[-1, 0], [0, 1]], "t": [40, 0]},
     "translate": {"l": [[1, 0], [0, 1]], "t": [7, 11]},
     "sim": {"l": [[0, 3], [-3, 0]], "t": [1, 1]},
+    # audit: similarities that are not axis aligned (3-4-5 rotation with scale 5, also mirrored), plain scale 3
+    "r345": {"l": [[3, -4], [4, 3]], "t": [1, 2]},
+    "r345m": {"l": [[3, 4], [4, -3]], "t": [-2, 0]},
+    "scale3": {"l": [[3, 0], [0, 3]], "t": [0, 0]},
+}
+# single derived values read before / between transforms
+READS = {
+    "none": lambda p: None, "paths": lambda p: p.paths, "discrete": lambda p: p.discrete, "root": lambda p: p.root,
+    "encl": lambda p: p.enclosure_directed, "graph": lambda p: p.vertex_graph, "closed": lambda p: p.polygons_closed,
+    "full": lambda p: p.polygons_full, "area": lambda p: p.area, "length": lambda p: p.length,
+    "shell": lambda p: p.enclosure_shell, "bounds": lambda p: (p.bounds, p.extents, p.scale), "dangling": lambda p: p.dangling,
+    "all": lambda p: (p.paths, p.polygons_full, p.area, p.length, p.bounds, p.is_closed, p.body_count),
 }
 
 
@@ -84,6 +123,12 @@ def presentations(curve, maxpieces, rs, cap):
     return out
 
 
+def exploded(curve, rs):
+    """One two-point piece per edge, random directions."""
+    n = len(curve)
+    return [[j, (j + 1) % n][::(-1 if rs.randint(2) else 1)] for j in range(n)]
+
+
 def snap(x, what):
     a = np.asarray(x, dtype=float)
     r = np.round(a)
@@ -97,6 +142,11 @@ def observe(p, loose=False, unscale=1.0):
     (similarity covariance: lengths scale by s, areas by s^2)."""
     full = []
     k = unscale
+    if loose:
+        # frame chosen by the library: only counts, hole counts, area and length are reported
+        return {"den": 1, "closed": bool(p.is_closed), "polys": [[] for _ in p.polygons_closed],
+                "full": [{"ext": [], "ints": [[] for _ in q.interiors]} for q in p.polygons_full],
+                "area2": snap(float(p.area) * 2 * k * k, "area"), "length": snap(float(p.length) * k, "length"), "bodies": int(p.body_count)}
     for poly in p.polygons_full:
         full.append({"ext": snap(np.array(poly.exterior.coords) * k, "ext"), "ints": [snap(np.array(i.coords) * k, "int") for i in poly.interiors]})
     return {"den": 1, "closed": bool(p.is_closed), "polys": [snap(np.array(q.exterior.coords) * k, "poly") for q in p.polygons_closed],
@@ -130,26 +180,98 @@ def build(tm, names, pres, order, dup_vertices, process, shrink=1.0):
     return tm.path.Path2D(entities=ents, vertices=np.array(verts, dtype=float) * shrink, process=process)
 
 
+def pieces_of(names, pres, order):
+    pieces = []
+    for n, pr in zip(names, pres):
+        for piece in pr:
+            pieces.append([CURVES[n][j] for j in piece])
+    return [pieces[i] for i in order]
+
+
+def build_entry(tm, names, pres, order, how):
+    """The same presentation handed to trimesh through its other constructors."""
+    import shapely.geometry as sg
+    pcs = pieces_of(names, pres, order)
+    if how == "segments":
+        segs = np.array([[a, b] for pc in pcs for a, b in zip(pc[:-1], pc[1:])], dtype=float)
+        return tm.load_path(segs)                                    # misc.lines_to_path / edges_to_path
+    if how == "mls":
+        return tm.load_path(sg.MultiLineString([[tuple(q) for q in pc] for pc in pcs]))   # linestrings_to_path
+    if how in ("polygon", "multipolygon"):
+        # one shapely polygon per curve (ring start and direction from the presentation)
+        rings = []
+        for n, pr in zip(names, pres):
+            c = CURVES[n]
+            first = pr[0]
+            d = 1 if (len(first) < 2 or (first[1] - first[0]) % len(c) == 1) else -1
+            rings.append(sg.Polygon([c[(first[0] + d * j) % len(c)] for j in range(len(c))]))
+        r = order[0] % len(rings)
+        rings = rings[r:] + rings[:r]
+        if how == "multipolygon":
+            # the rings as one (unvalidated) collection: polygon_to_path walks several boundaries
+            return tm.load_path(sg.MultiPolygon(rings))
+        parts = [tm.load_path(q) for q in rings]                      # polygon_to_path, one boundary each
+        return parts[0].copy() if len(parts) == 1 else tm.path.util.concatenate(parts)
+    if how in ("concat", "add"):
+        parts = [tm.load_path(np.array(pc, dtype=float)) for pc in pcs]   # (n, 2) connected polyline
+        if how == "concat" or len(parts) == 1:
+            return tm.path.util.concatenate(parts)
+        q = parts[0]
+        for x in parts[1:]:
+            q = q + x
+        q.merge_vertices()
+        return q
+    raise ValueError(how)
+
+
+def apply_hist_map(p, name):
+    p.apply_transform(m3(MAPS[name]))
+
+
+def roundtrip(tm, p, ft):
+    data = p.export(file_type=ft)
+    if ft == "dict":
+        return tm.load_path(data)
+    raw = data.encode() if isinstance(data, str) else data
+    return tm.load_path(io.BytesIO(raw), file_type=ft)
+
+
 def run_case(tm, job):
     names, pres, order, dup, hist = job
-    rec = {"curves": [CURVES[n] for n in names], "m": MAPS["none"], "loose": False, "exc": "",
+    rec = {"kind": "poly", "curves": [CURVES[n] for n in names], "m": MAPS["none"], "m2": MAPS["none"], "loose": False, "rezero": False, "exc": "",
            "desc": {"drawing": names, "pieces": pres, "order": list(order), "dup_vertices": dup, "history": hist}}
     try:
         kind = hist[0]
         unscale = 1.0
         if kind == "tiny":
-            # the same drawing at 10^-k of its size: rebuilt from segments, and through dict / dxf
-            unscale = 10.0 ** hist[1]
+            # the same drawing at 10^-k of its size: rebuilt from segments, and through dict / dxf / svg
+            # (negative k: 2^-k times larger - a power of two keeps the lattice exact and uses many digits)
+            unscale = 10.0 ** hist[1] if hist[1] > 0 else 2.0 ** hist[1]
             p = build(tm, names, pres, order, dup, True, shrink=1.0 / unscale)
-            if hist[2] == "dict":
-                p = tm.load_path(p.export(file_type="dict"))
-            elif hist[2] == "dxf":
-                data = p.export(file_type="dxf")
-                p = tm.load_path(io.BytesIO(data.encode() if isinstance(data, str) else data), file_type="dxf")
+            if hist[2] != "direct":
+                p = roundtrip(tm, p, hist[2])
+        elif kind == "entry" and hist[1] in ("segments", "mls", "polygon", "multipolygon", "concat", "add"):
+            p = build_entry(tm, names, pres, order, hist[1])
         else:
             p = build(tm, names, pres, order, dup, True if dup else (hist[0] != "raw"))
         if kind in ("read", "raw", "tiny"):
             pass
+        elif kind == "entry":
+            how = hist[1]
+            if how == "explode":
+                if hist[2] == "warm":
+                    p.polygons_full, p.length
+                p.explode()
+            elif how == "copy":
+                READS[hist[2]](p)
+                q = p.copy()
+                p.apply_transform(m3(MAPS["sim"]))            # the original moves on, the copy must not
+                p = q
+            elif how == "to3d":
+                p3 = p.to_3D()
+                p3.apply_transform(tm.transformations.rotation_matrix(0.7, [1, 2, 3], [1, 1, 1]))
+                p, _ = p3.to_2D()
+                rec["loose"] = True                           # the fitted plane frame is arbitrary in-plane
         elif kind == "transform":
             if hist[2] == "warm":
                 p.paths, p.polygons_full, p.area, p.length, p.bounds, p.is_closed
@@ -157,18 +279,51 @@ def run_case(tm, job):
                 p.polygons_closed, p.length
             p.apply_transform(m3(MAPS[hist[1]]))
             rec["m"] = MAPS[hist[1]]
+        elif kind == "transform2":
+            _, m1, r1, m2, r2 = hist
+            READS[r1](p)
+            p.apply_transform(m3(MAPS[m1]))
+            READS[r2](p)
+            p.apply_transform(m3(MAPS[m2]))
+            rec["m"], rec["m2"] = MAPS[m1], MAPS[m2]
+        elif kind == "via":
+            READS[hist[2]](p)
+            if hist[1] == "apply_scale":
+                p.apply_scale(3.0)
+                rec["m"] = MAPS["scale3"]
+            elif hist[1] == "apply_translation":
+                p.apply_translation([7, 11])
+                rec["m"] = MAPS["translate"]
+            elif hist[1] == "rezero":
+                p.apply_transform(m3(MAPS["r345m"]))
+                p.rezero()
+                rec["m"] = MAPS["r345m"]
+                rec["rezero"] = True                          # TLC moves the lower left corner of the image to the origin
+        elif kind == "rot345":
+            # a pure rotation by the rational angle atan2(4, 3): reported at 5 times its size
+            READS[hist[1]](p)
+            M = m3(MAPS["r345"])
+            M[:2, :2] /= 5.0
+            M[:2, 2] = [0.2, 0.4]
+            p.apply_transform(M)
+            unscale = 5.0
+            rec["m"] = MAPS["r345"]
+        elif kind == "t_export":
+            READS[hist[3]](p)
+            p.apply_transform(m3(MAPS[hist[1]]))
+            p = roundtrip(tm, p, hist[2])
+            rec["m"] = MAPS[hist[1]]
+        elif kind == "export_t":
+            p = roundtrip(tm, p, hist[1])
+            READS[hist[3]](p)
+            p.apply_transform(m3(MAPS[hist[2]]))
+            rec["m"] = MAPS[hist[2]]
         elif kind == "export":
             ft = hist[1]
             if hist[2] == "warm":
                 p.polygons_full, p.area
-            data = p.export(file_type=ft)
-            if ft == "dict":
-                p = tm.load_path(data)
-            else:
-                raw = data.encode() if isinstance(data, str) else data
-                p = tm.load_path(io.BytesIO(raw), file_type=ft)
-            rec["loose"] = ft == "svg"
-        rec["obs"] = observe(p, unscale=unscale)
+            p = roundtrip(tm, p, ft)
+        rec["obs"] = observe(p, loose=rec["loose"], unscale=unscale)
     except BaseException as e:  # noqa
         rec["exc"] = type(e).__name__ + ":" + str(e)[:60]
         rec["obs"] = {"den": 1, "closed": False, "polys": [], "full": [], "area2": 0, "length": 0, "bodies": 0}
@@ -238,6 +393,270 @@ def arc_cases(tm, tier, rs):
     return n, fails
 
 
+# ------------------------------------------------------------------ arcs judged by TLC (records of kind "arc")
+def _circ(cx, cy, pts):
+    return [[cx + x, cy + y] for x, y in pts]
+
+
+R5 = CIRC                                                                  # 12 lattice points of radius 5
+R_SQRT5 = [(2, 1), (1, 2), (-1, 2), (-2, 1), (-2, -1), (-1, -2), (1, -2), (2, -1)]     # 8 lattice points of radius sqrt 5
+# a curve is a cycle of spans; ("L", points) straight polyline, ("A", points) lattice points along one circular arc,
+# ("O", points) a full circle (cyclic, first point not repeated)
+ARC_CURVES = {
+    "circle": [("O", _circ(10, 10, R5))],
+    "circle_b": [("O", _circ(30, 8, R5))],
+    "small_circle": [("O", _circ(10, 10, R_SQRT5))],
+    "frame": [("L", [[0, 0], [20, 0], [20, 20], [0, 20], [0, 0]])],
+    "island": [("L", [[9, 9], [11, 9], [11, 11], [9, 11], [9, 9]])],
+    "tri_in": [("L", [[9, 9], [12, 9], [9, 13], [9, 9]])],
+    "stadium": [("L", [[0, 0], [5, 0], [10, 0]]), ("A", [[10, 0], [13, 1], [14, 2], [15, 5], [14, 8], [13, 9], [10, 10]]),
+                ("L", [[10, 10], [0, 10]]), ("A", [[0, 10], [-3, 9], [-4, 8], [-5, 5], [-4, 2], [-3, 1], [0, 0]])],
+    "half_disc": [("A", [[0, -5], [3, -4], [4, -3], [5, 0], [4, 3], [3, 4], [0, 5]]), ("L", [[0, 5], [0, 0], [0, -5]])],
+    "rounded": [("L", [[5, 0], [15, 0]]), ("A", [[15, 0], [18, 1], [19, 2], [20, 5]]), ("L", [[20, 5], [20, 15]]),
+                ("A", [[20, 15], [19, 18], [18, 19], [15, 20]]), ("L", [[15, 20], [5, 20]]), ("A", [[5, 20], [2, 19], [1, 18], [0, 15]]),
+                ("L", [[0, 15], [0, 5]]), ("A", [[0, 5], [1, 2], [2, 1], [5, 0]])],
+    "rounded_hole": [("L", [[8, 8], [12, 8], [12, 12], [8, 12], [8, 8]])],
+}
+PI = float(np.pi)
+# drawing -> (curves, closed form of the smooth region's area)
+ARC_DRAWINGS = {
+    "circle": (["circle"], 25 * PI),
+    "circle_in_frame": (["frame", "circle"], 400 - 25 * PI),
+    "frame_circle_island": (["frame", "circle", "island"], 400 - 25 * PI + 4),
+    "annulus": (["circle", "small_circle"], 20 * PI),
+    "circle_with_triangle": (["circle", "tri_in"], 25 * PI - 6),
+    "stadium": (["stadium"], 100 + 25 * PI),
+    "half_disc": (["half_disc"], 12.5 * PI),
+    "rounded_with_hole": (["rounded", "rounded_hole"], 400 - (100 - 25 * PI) - 16),
+    "two_bodies": (["stadium", "circle_b"], 100 + 50 * PI),
+}
+
+
+def skeleton(curve):
+    pts = []
+    for kind, q in curve:
+        pts += q if kind == "O" else q[:-1]
+    return pts
+
+
+def has_arcs(curve):
+    return any(kind != "L" for kind, _ in curve)
+
+
+def _cut_run(n_edges, min_edges, rs, maxpieces):
+    """Random cut of a run of n_edges elementary edges into pieces of >= min_edges edges: list of (a, b) node ranges."""
+    for _ in range(50):
+        k = 1 + rs.randint(min(maxpieces, max(1, n_edges // min_edges)))
+        cuts = sorted(rs.permutation(np.arange(1, n_edges))[:k - 1].tolist()) if n_edges > 1 else []
+        bounds = [0] + cuts + [n_edges]
+        if all(b - a >= min_edges for a, b in zip(bounds[:-1], bounds[1:])):
+            return list(zip(bounds[:-1], bounds[1:]))
+    return [(0, n_edges)]
+
+
+def arc_presentation(curve, rs, canonical=False, closed_entity=False):
+    """Entities ("L", points) / ("A", [a, mid, b]) / ("C", [a, mid, b]) for one curve."""
+    ents = []
+    for kind, q in curve:
+        if kind == "L":
+            runs = [(0, len(q) - 1)] if canonical else _cut_run(len(q) - 1, 1, rs, 3)
+            for a, b in runs:
+                ents.append(("L", q[a:b + 1]))
+        elif kind == "A":
+            runs = [(0, len(q) - 1)] if canonical else _cut_run(len(q) - 1, 2, rs, 3)
+            for a, b in runs:
+                mid = (a + b) // 2 if canonical else a + 1 + rs.randint(b - a - 1)
+                ents.append(("A", [q[a], q[mid], q[b]]))
+        else:
+            n = len(q)
+            if closed_entity:
+                i, j, k = sorted(rs.permutation(n)[:3].tolist())
+                ents.append(("C", [q[i], q[j], q[k]]))
+                continue
+            if canonical:
+                runs, off = [(0, n // 2), (n // 2, n)], 0
+            else:
+                off = rs.randint(n)
+                runs = _cut_run(n, 2, rs, 4)
+                if len(runs) == 1:
+                    c = 2 + rs.randint(n - 3)
+                    runs = [(0, c), (c, n)]
+            for a, b in runs:
+                mid = (a + b) // 2 if canonical else a + 1 + rs.randint(b - a - 1)
+                ents.append(("A", [q[(off + a) % n], q[(off + mid) % n], q[(off + b) % n]]))
+    if not canonical:
+        ents = [(k, pts[::-1]) if rs.randint(2) else (k, pts) for k, pts in ents]
+    return ents
+
+
+def build_arcs(tm, ents, dup):
+    from trimesh.path.entities import Arc, Line
+    verts, index, out = [], {}, []
+
+    def vid(pt):
+        if dup:
+            verts.append(pt)
+            return len(verts) - 1
+        key = tuple(pt)
+        if key not in index:
+            index[key] = len(verts)
+            verts.append(pt)
+        return index[key]
+    for kind, pts in ents:
+        ids = [vid(q) for q in pts]
+        out.append(Line(ids) if kind == "L" else Arc(ids, closed=(kind == "C")))
+    return tm.path.Path2D(entities=out, vertices=np.array(verts, dtype=float))
+
+
+def line_twin(tm, p):
+    """The same boundary with every Arc entity replaced by a Line through that arc's own discretisation."""
+    from trimesh.path.entities import Line
+    scale = p.scale
+    verts = [list(v) for v in np.asarray(p.vertices)]
+    ents = []
+    for e in p.entities:
+        if type(e).__name__ == "Arc":
+            d = np.asarray(e.discrete(p.vertices, scale=scale))
+            ents.append(Line(list(range(len(verts), len(verts) + len(d)))))
+            verts += d.tolist()
+        else:
+            ents.append(Line(e.points.copy()))
+    return tm.path.Path2D(entities=ents, vertices=np.array(verts, dtype=float))
+
+
+def _ring(coords, k):
+    a = np.array(coords, dtype=float) * k
+    r = np.round(a)
+    if np.abs(a - r).max() < 1e-6:
+        return r.astype(int).tolist()
+    return None
+
+
+def observe_arcs(p, unscale, canon, kfac):
+    k = unscale
+    polys, ncurved = [], 0
+    closed = p.polygons_closed
+    for q in closed:
+        r = _ring(q.exterior.coords, k)
+        if r is None:
+            ncurved += 1
+        else:
+            polys.append(r)
+    full = []
+    for q in p.polygons_full:
+        ext = _ring(q.exterior.coords, k)
+        ints = [_ring(i.coords, k) for i in q.interiors]
+        full.append({"curved": ext is None, "ext": ext or [], "ints": [r for r in ints if r is not None],
+                     "ncurved": sum(1 for r in ints if r is None)})
+    area = float(p.area) * k * k
+    length = float(p.length) * k
+    want = kfac * canon["len"]
+    ppb = (length - want) / want * 1e9
+    return {"closed": bool(p.is_closed), "npolys": int(len(closed)), "bodies": int(p.body_count), "polys": polys, "full": full,
+            "area_fp": int(round(area * 100)), "len_fp": int(round(length * 1000)),
+            "len_ppb": int(np.clip(round(ppb), -10 ** 9, 10 ** 9))}
+
+
+def arc_canonical(tm, dname):
+    names, _ = ARC_DRAWINGS[dname]
+    ents = [e for n in names for e in arc_presentation(ARC_CURVES[n], None, canonical=True)]
+    p = build_arcs(tm, ents, False)
+    return {"area": float(p.area), "len": float(p.length)}
+
+
+def run_arc_case(tm, job):
+    dname, ents, dup, hist, canon = job
+    names, smooth = ARC_DRAWINGS[dname]
+    rec = {"kind": "arc", "curves": [skeleton(ARC_CURVES[n]) for n in names], "arcs": [has_arcs(ARC_CURVES[n]) for n in names],
+           "m": MAPS["none"], "m2": MAPS["none"], "exc": "", "len_tol_ppb": 3,
+           "canon": {"area_fp": int(round(canon["area"] * 100)), "len_fp": int(round(canon["len"] * 1000))},
+           "smooth_area_fp": int(round(smooth * 100)),
+           "desc": {"drawing": dname, "entities": ents, "dup_vertices": dup, "history": hist}}
+    try:
+        kind = hist[0]
+        unscale = 1.0
+        kfac = 1.0
+        p = build_arcs(tm, ents, dup)
+        if kind == "read":
+            pass
+        elif kind == "twin":
+            p = line_twin(tm, p)
+            rec["len_tol_ppb"] = 0          # Line entities measure the polygon, Arc entities the circle: not compared
+        elif kind == "transform":
+            READS[hist[2]](p)
+            p.apply_transform(m3(MAPS[hist[1]]))
+            rec["m"] = MAPS[hist[1]]
+        elif kind == "transform2":
+            READS[hist[3]](p)
+            p.apply_transform(m3(MAPS[hist[1]]))
+            READS[hist[4]](p)
+            p.apply_transform(m3(MAPS[hist[2]]))
+            rec["m"], rec["m2"] = MAPS[hist[1]], MAPS[hist[2]]
+        elif kind == "export":
+            READS[hist[2]](p)
+            p = roundtrip(tm, p, hist[1])
+            if hist[1] != "dict":
+                rec["len_tol_ppb"] = 1000   # 12 significant digits of centre / radius / angles
+        elif kind == "t_export":
+            p.apply_transform(m3(MAPS[hist[1]]))
+            p = roundtrip(tm, p, hist[2])
+            rec["m"] = MAPS[hist[1]]
+            if hist[2] != "dict":
+                rec["len_tol_ppb"] = 1000
+        elif kind == "mag":
+            # a similarity by a power of two (exact in doubles), reported back at lattice size
+            READS[hist[2]](p)
+            f = 2.0 ** hist[1]
+            M = np.eye(3)
+            M[0, 0] = M[1, 1] = f
+            p.apply_transform(M)
+            unscale = 1.0 / f
+        L = np.array(rec["m"]["l"], dtype=float) @ np.array(rec["m2"]["l"], dtype=float)
+        kfac = float(np.sqrt(abs(np.linalg.det(L))))
+        rec["obs"] = observe_arcs(p, unscale, canon, kfac)
+    except BaseException as e:  # noqa
+        rec["exc"] = type(e).__name__ + ":" + str(e)[:60]
+        rec["obs"] = {"closed": False, "npolys": 0, "bodies": 0, "polys": [], "full": [], "area_fp": 0, "len_fp": 0, "len_ppb": 0}
+    return rec
+
+
+def _arc_chunk(jobs):
+    tm = import_trimesh()
+    return [run_arc_case(tm, j) for j in jobs]
+
+
+def arc_jobs(tm, tier, rs, V):
+    per = 230 if tier == "quick" else 2600
+    warm = ["none", "all", "paths", "discrete", "full", "length", "bounds", "closed"]
+    hists = [("read",)] * 4 + [("twin",)] * 2
+    hists += [("transform", m, w) for m in ("rot90", "mirror", "scale2", "sim", "r345", "r345m", "translate") for w in ("none", "all", "paths", "discrete")]
+    hists += [("transform2", m1, m2, r1, r2) for (m1, m2) in (("mirror", "r345"), ("rot90", "scale2"), ("scale2", "mirror"), ("translate", "r345m"))
+              for (r1, r2) in (("none", "full"), ("discrete", "none"), ("all", "paths"))]
+    hists += [("export", ft, w) for ft in ("dxf", "svg", "dict") for w in ("none", "all", "paths")]
+    hists += [("t_export", m, ft) for m in ("mirror", "r345", "scale2") for ft in ("dxf", "svg", "dict")]
+    hists += [("mag", e, w) for e in (-20, 10, 40) for w in ("none", "all", "discrete")]
+    jobs = []
+    for dname, (names, _) in ARC_DRAWINGS.items():
+        try:
+            canon = arc_canonical(tm, dname)
+        except BaseException as e:  # noqa
+            V.violation("raised", {"drawing": dname, "presentation": "canonical", "exc": type(e).__name__ + ":" + str(e)[:80]})
+            continue
+        circles = [n for n in names if ARC_CURVES[n][0][0] == "O"]
+        for t in range(per):
+            closed_entity = bool(circles) and t % 5 == 0
+            ents = [e for n in names for e in arc_presentation(ARC_CURVES[n], rs, closed_entity=closed_entity and ARC_CURVES[n][0][0] == "O")]
+            ents = [ents[i] for i in rs.permutation(len(ents))]
+            hist = hists[t % len(hists)]
+            dup = bool(rs.randint(3) == 0)
+            jobs.append((dname, ents, dup, hist, canon))
+    return jobs
+
+
+def family(hist):
+    return ":".join(str(x) for x in hist[:2])
+
+
 def main(argv):
     tier = tier_from_args(argv)
     V = Verdict(PROP, tier)
@@ -247,23 +666,43 @@ def main(argv):
     maxp = 3 if tier == "quick" else 4
     cap_curve = 14 if tier == "quick" else 60
     per_drawing = 120 if tier == "quick" else 1500
-    hists = [("read",), ("raw",)] + [("transform", m, w) for m in MAPS if m != "none" for w in ("cold", "warm", "partial")] + \
+    hists = [("read",), ("raw",)] + [("transform", m, w) for m in MAPS if m not in ("none", "scale3") for w in ("cold", "warm", "partial")] + \
             [("export", ft, w) for ft in ("dxf", "svg", "dict") for w in ("cold", "warm")] + \
             [("tiny", k, via) for k in (2, 4, 5, 6) for via in ("direct", "dict")] + [("tiny", 4, "dxf")]
-    for names in DRAWINGS:
-        pres_lists = [presentations(CURVES[n], maxp, rs, cap_curve) for n in names]
-        combos = 1
-        for pl in pres_lists:
-            combos *= len(pl)
-        for t in range(per_drawing):
-            pres = [pl[rs.randint(len(pl))] for pl in pres_lists]
-            npieces = sum(len(p) for p in pres)
-            order = list(rs.permutation(npieces)) if t % 4 else list(range(npieces))
-            dup = bool(t % 3 == 0)
-            hist = hists[t % len(hists)]
-            if hist[0] == "raw" and dup:
-                hist = ("read",)
-            jobs.append((names, pres, [int(x) for x in order], dup, hist))
+    # audit families
+    pairs = [("mirror", "r345"), ("r345m", "mirror"), ("scale2", "rot90"), ("rot180", "sim"), ("translate", "r345m"), ("sim", "translate")]
+    reads = [r for r in READS if r != "none"]
+    hists2 = [("entry", how, w) for how, w in (("segments", ""), ("mls", ""), ("polygon", ""), ("multipolygon", ""), ("concat", ""), ("add", ""), ("explode", "cold"),
+                                                ("explode", "warm"), ("copy", "all"), ("copy", "discrete"), ("to3d", ""))]
+    hists2 += [("transform2", m1, reads[(3 * j) % len(reads)], m2, (["none"] + reads)[(5 * j + 1) % (len(reads) + 1)]) for j, (m1, m2) in enumerate(pairs * 3)]
+    hists2 += [("via", e, w) for e in ("apply_scale", "apply_translation", "rezero") for w in ("none", "all", "discrete")]
+    hists2 += [("rot345", w) for w in ("none", "all", "paths")]
+    hists2 += [("t_export", m, ft, w) for m, ft, w in (("r345", "dxf", "none"), ("mirror", "svg", "all"), ("scale2", "dict", "paths"), ("r345m", "svg", "none"),
+                                                       ("mirror", "dxf", "discrete"), ("rot90", "dict", "full"))]
+    hists2 += [("export_t", ft, m, w) for ft, m, w in (("dxf", "r345", "none"), ("svg", "mirror", "full"), ("dict", "sim", "paths"), ("svg", "r345m", "discrete"))]
+    hists2 += [("tiny", -10, "direct"), ("tiny", -10, "dict"), ("tiny", -10, "dxf"), ("tiny", -10, "svg"), ("tiny", -20, "direct"), ("tiny", -20, "dxf"), ("tiny", 4, "svg"), ("tiny", 6, "dxf"), ("tiny", 6, "svg")]
+    # single reads before one transform (each derived value alone)
+    hists2 += [("transform2", m, r, "none", "none") for m, r in zip(("mirror", "r345", "scale2", "rot90", "r345m", "sim") * 3, reads)]
+
+    def add_jobs(drawings, hist_list, per):
+        for names in drawings:
+            pres_lists = [presentations(CURVES[n], maxp, rs, cap_curve) for n in names]
+            for t in range(per):
+                # (seeded choices, not t modulo something: the history cycles with t)
+                if rs.randint(7) == 3:
+                    pres = [exploded(CURVES[n], rs) for n in names]           # one entity per edge
+                else:
+                    pres = [pl[rs.randint(len(pl))] for pl in pres_lists]
+                npieces = sum(len(p) for p in pres)
+                order = list(rs.permutation(npieces)) if rs.randint(4) else list(range(npieces))
+                dup = bool(rs.randint(3) == 0)
+                hist = hist_list[t % len(hist_list)]
+                if hist[0] == "raw" and dup:
+                    hist = ("read",)
+                jobs.append((names, pres, [int(x) for x in order], dup, hist))
+    add_jobs(DRAWINGS, hists, per_drawing)
+    add_jobs(DRAWINGS_DEEP, hists, per_drawing // 2)
+    add_jobs(DRAWINGS + DRAWINGS_DEEP, hists2, len(hists2) * (2 if tier == "quick" else 12))
     # exhaustive block: the nested pair, every presentation with <= 2 pieces per curve, every order and direction
     names = ["outer", "hole"]
     pl = [presentations(CURVES[n], 2, rs, 10 ** 6) for n in names]
@@ -273,8 +712,11 @@ def main(argv):
             npieces = len(pa) + len(pb)
             for order in itertools.permutations(range(npieces)):
                 jobs.append((names, [pa, pb], list(order), False, ("read",)))
+    ajobs = arc_jobs(tm, tier, rs, V)
     res = pmap(_chunk, jobs, chunk=100)
     cases = [c for r in res for c in r]
+    ares = pmap(_arc_chunk, ajobs, chunk=50)
+    cases += [c for r in ares for c in r]
     descs = []
     for k, c in enumerate(cases):
         c["id"] = k
@@ -283,21 +725,58 @@ def main(argv):
         raise MachineryError("too few cases")
     rejects, states, wall = tlc.validate_batches("c14", "Regions", cases, CFG, timeout=1500)
     for cid, clause in sorted(rejects.items()):
-        V.violation(clause, dict(descs[cid], exc=cases[cid]["exc"], observed={k: cases[cid]["obs"][k] for k in ("closed", "area2", "length", "bodies")}))
+        obs = cases[cid]["obs"]
+        if clause == "raised":
+            clause = "raised:" + cases[cid]["exc"].split(":")[0] + (":arc_drawing" if cases[cid]["kind"] == "arc" else "")
+        V.violation(clause, dict(descs[cid], exc=cases[cid]["exc"],
+                                 observed={k: obs[k] for k in ("closed", "area2", "length", "bodies", "npolys", "area_fp", "len_fp", "len_ppb") if k in obs}))
     n_arc, arc_fails = arc_cases(tm, tier, rs)
     for f in arc_fails:
         V.violation(f["clause"], f)
-    byh = {}
-    for d in descs:
-        key = ":".join(str(x) for x in d["history"][:2])
-        byh[key] = byh.get(key, 0) + 1
+    byh, bya, byd = {}, {}, {}
+    for d, c in zip(descs, cases):
+        key = family(d["history"])
+        tgt = bya if c["kind"] == "arc" else byh
+        tgt[key] = tgt.get(key, 0) + 1
+        dk = d["drawing"] if isinstance(d["drawing"], str) else "+".join(d["drawing"])
+        byd[dk] = byd.get(dk, 0) + 1
+    # coverage guards: every family of the enumeration really produced records
+    need_poly = ["read", "raw", "transform:r345", "transform:mirror", "export:svg", "tiny:2", "tiny:-10", "tiny:-20", "entry:segments", "entry:mls", "entry:polygon", "entry:multipolygon",
+                 "entry:concat", "entry:add", "entry:explode", "entry:copy", "entry:to3d", "transform2:mirror", "transform2:r345", "via:apply_scale",
+                 "via:rezero", "rot345:none", "rot345:all", "t_export:r345", "export_t:dxf", "export_t:svg"]
+    need_arc = ["read", "twin", "transform:mirror", "transform:r345", "transform2:mirror", "export:dxf", "export:svg", "export:dict",
+                "t_export:r345", "mag:-20", "mag:10", "mag:40"]
+    for key in need_poly:
+        if byh.get(key, 0) < 5:
+            raise MachineryError("family %s of the polygonal enumeration came out nearly empty (%d)" % (key, byh.get(key, 0)))
+    for key in need_arc:
+        if bya.get(key, 0) < 5:
+            raise MachineryError("family %s of the arc enumeration came out nearly empty (%d)" % (key, bya.get(key, 0)))
+    n_arc_rec = sum(bya.values())
+    if n_arc_rec < 1500 or len([d for d in byd if d in ARC_DRAWINGS]) < len(ARC_DRAWINGS):
+        raise MachineryError("arc records: %d over %d drawings" % (n_arc_rec, len([d for d in byd if d in ARC_DRAWINGS])))
+    n_closed_entity = sum(1 for d in descs if "entities" in d and any(k == "C" for k, _ in d["entities"]))
+    n_exploded = sum(1 for d in descs if "pieces" in d and all(len(pc) == 2 for pr in d["pieces"] for pc in pr) and sum(len(pr) for pr in d["pieces"]) > 3)
+    if n_closed_entity < 50 or n_exploded < 50:
+        raise MachineryError("closed-circle entities %d, fully exploded presentations %d" % (n_closed_entity, n_exploded))
+    # observation kept out of the verdict: an Arc entity reports twice the analytic arc length on this tree, a Line
+    # through the same discretisation reports the polygon's perimeter (the statement promises exact lengths for
+    # polygonal input and invariance otherwise)
+    try:
+        hd = build_arcs(tm, [e for e in arc_presentation(ARC_CURVES["half_disc"], None, canonical=True)], False)
+        ratio = round(float(hd.length) / float(line_twin(tm, hd).length), 4)
+    except BaseException as e:  # noqa
+        ratio = "raised " + type(e).__name__
     cov = {"states": states, "transitions": states, "traces_validated_against_impl": len(cases),
-           "drawings": len(DRAWINGS), "cases_per_history": byh, "arc_presentations_compared": n_arc, "rejected": len(rejects),
+           "drawings": len(DRAWINGS) + len(DRAWINGS_DEEP), "arc_drawings": len(ARC_DRAWINGS), "cases_per_history": byh, "arc_records_per_history": bya,
+           "records_per_drawing": byd, "arc_records": n_arc_rec, "closed_circle_entity_presentations": n_closed_entity,
+           "fully_exploded_presentations": n_exploded, "arc_presentations_compared": n_arc, "rejected": len(rejects),
+           "half_disc_length_as_arc_over_length_as_polyline": ratio,
            "tlc_wall_s": round(wall, 1), "samples": [descs[len(descs) // 3], descs[-1]]}
     return V.finish("model_checking", cov, assumptions=[
-        "polygonal drawings on the integer lattice (rectilinear and 3-4-5 families, so lengths are integers); similarity maps with integer matrices",
-        "svg round trips are compared on counts, nesting hole counts, area and length only (the format may re-frame coordinates)",
-        "arc drawings: equality with the canonical presentation of the same drawing at 1e-9 relative",
+        "polygonal drawings on the integer lattice (rectilinear and 3-4-5 families, so lengths are integers); similarity maps with integer matrices (a rational rotation is reported at 5 times its size)",
+        "frames chosen by the library (to_2D of a lifted path) are compared on counts, nesting hole counts, area and length only",
+        "arc drawings: nesting from lattice skeletons, polygonal curves exactly, area within 2e-3 of the canonical presentation scaled by the map, length at 3e-9 (1e-6 through dxf / svg); a Line presentation of an arc boundary is not compared on length",
     ])
 
 
